@@ -160,7 +160,7 @@ func main() {
 	r.Assumptions = []string{"the oracle never parses DN strings: identities are generated as attribute lists and rendered; subjects are minted from raw RDN sequences",
 		"soundness direction is decisive (pass only if contained); 'contained but rejected' is counted as a completeness observation, not a violation, except across renderings of the same identity list (metamorphic) and for the wildcard",
 		"subjects with empty attribute values are not generated (whether they are 'interpretable' is not stated)"}
-	n := r.N(4000, 80000)
+	n := r.N(4000, 300000)
 	vals := []string{"US", "WA", "Org", "a,b", "x+y", `q"r`, `b\s`, "<t>", "s;t", " lead", "trail ", "#hash", "a=b", "Ünï", "A", "Org2", "DE", "x", "o u"}
 	types := []string{"C", "ST", "O", "OU", "CN", "L", "STREET"}
 	rootAttrs := []av{{"C", "US"}, {"ST", "WA"}, {"O", "RootOrg"}, {"CN", "root"}}
